@@ -27,7 +27,7 @@ static int nmods;
 static char LN[NM][8];                 /* logical names as in the spec ("A", "B", ...) */
 static char RN[NM][16];                /* real names registered with the library (chosen so that the table order is LN order) */
 static m_mod_t *H[NM];
-static char hooks[NM][8], flags[NM][8];
+static char hooks[NM][8], flags[NM][16];
 static int ctx_persist, cap = 2, maxpay = 1;
 
 /* ---- payloads ---- */
@@ -281,11 +281,15 @@ static const char *real_topic(const char *t, char *buf, size_t n) {
     if (!strcmp(t, "CTX_STARTED") || !strcmp(t, "CTX_STOPPED") || !strcmp(t, "MOD_STARTED") || !strcmp(t, "MOD_STOPPED") || !strcmp(t, "CTX_TICK")) { snprintf(buf, n, "LIBMODULE_%s", t); return buf; }
     return t;
 }
-static m_mod_flags mflags(int i) {
+/* VP_FLAGS="A:RP/-,B:CUS": flag sets a registration under that name may choose from (ModRegister(m, i) uses the i-th) */
+static m_mod_flags mflags_i(int i, int which) {
     m_mod_flags f = 0;
-    for (const char *c = flags[i]; *c; c++) f |= *c == 'R' ? M_MOD_ALLOW_REPLACE : *c == 'P' ? M_MOD_PERSIST : *c == 'C' ? M_MOD_DENY_CTX : *c == 'U' ? M_MOD_DENY_PUB : *c == 'S' ? M_MOD_DENY_SUB : 0;
+    const char *c = flags[i];
+    for (int k = 1; k < which && *c; c++) if (*c == '/') k++;
+    for (; *c && *c != '/'; c++) f |= *c == 'R' ? M_MOD_ALLOW_REPLACE : *c == 'P' ? M_MOD_PERSIST : *c == 'C' ? M_MOD_DENY_CTX : *c == 'U' ? M_MOD_DENY_PUB : *c == 'S' ? M_MOD_DENY_SUB : 0;
     return f;
 }
+static m_mod_flags mflags(int i) { return mflags_i(i, 1); }
 
 static void exec_action(gw_edge *e) {
     const char *a = e->act;
@@ -327,7 +331,7 @@ static void exec_action(gw_edge *e) {
         if (strchr(hooks[m], 's')) hk.on_start = cb_start;
         if (strchr(hooks[m], 'x')) hk.on_stop = cb_stop;
         m_mod_t *old = H[m], *nw = NULL;
-        r = m_mod_register(RN[m], &nw, &hk, mflags(m), NULL);
+        r = m_mod_register(RN[m], &nw, &hk, mflags_i(m, (int)e->args[1]), NULL);
         if (r == 0) { H[m] = nw; if (old) m_mem_unref(old); }       /* replaced: the program drops its reference to the old module */
         keep = 1;
     }
@@ -470,7 +474,7 @@ static void measure_order(void) {
     for (int i = 0; i < nmods; i++) snprintf(RN[i], sizeof RN[i], "%s", tmp[i]);
 }
 
-static void parse_kv(const char *env, char dst[NM][8]) {
+static void parse_kv(const char *env, char *dstp, size_t w) {
     const char *s = getenv(env);
     if (!s) return;
     while (*s) {
@@ -480,8 +484,8 @@ static void parse_kv(const char *env, char dst[NM][8]) {
         if (!c) break;
         c++;
         size_t k = 0;
-        while (*c && *c != ',') { if (i >= 0 && k < 7) dst[i][k++] = *c; c++; }
-        if (i >= 0) dst[i][k] = 0;
+        while (*c && *c != ',') { if (i >= 0 && k < w - 1) dstp[i * w + k++] = *c; c++; }
+        if (i >= 0) dstp[i * w + k] = 0;
         s = *c ? c + 1 : c;
     }
 }
@@ -489,8 +493,8 @@ static void parse_kv(const char *env, char dst[NM][8]) {
 int main(int argc, char **argv) {
     const char *ms = getenv("VP_MODS") ? getenv("VP_MODS") : "A,B";
     for (const char *c = ms; *c; c++) if (*c != ',') { LN[nmods][0] = *c; LN[nmods][1] = 0; nmods++; }
-    parse_kv("VP_HOOKS", hooks);
-    parse_kv("VP_FLAGS", flags);
+    parse_kv("VP_HOOKS", &hooks[0][0], sizeof hooks[0]);
+    parse_kv("VP_FLAGS", &flags[0][0], sizeof flags[0]);
     ctx_persist = getenv("VP_CTXPERSIST") && atoi(getenv("VP_CTXPERSIST"));
     if (getenv("VP_CAP")) cap = atoi(getenv("VP_CAP"));
     if (getenv("VP_MAXPAY")) maxpay = atoi(getenv("VP_MAXPAY"));
